@@ -3,7 +3,6 @@
  * establishes).  The portable secp256k1_clz64_var loop (HAVE_BUILTIN_CLZLL is not defined by the
  * verification configuration) is closed by full unwinding: <= 63 iterations for n != 0. */
 #include "assumed.h"
-#include "small_tables.h"
 #include "src/secp256k1.c"
 #include "post.h"
 
